@@ -83,7 +83,9 @@ pub fn is_symmetric(m: &[f64]) -> bool {
     let n = is_square(m).unwrap();
     for i in 0..n {
         for j in i..n {
-            if (m[i * n + j] - m[j * n + i]).abs() > f64::EPSILON {
+            // relative tolerance: an absolute one calls every tiny-scale matrix symmetric
+            let (a, b) = (m[i * n + j], m[j * n + i]);
+            if (a - b).abs() > f64::EPSILON * a.abs().max(b.abs()) {
                 return false;
             }
         }
